@@ -29,8 +29,12 @@ def main():
         res['demo_msg'] = out.strip().splitlines()[-1][:200] if out.strip() else ''
         rc, out = sh(['/venv/bin/python', '-m', 'pytest', '-q', '-p', 'no:cacheprovider', '-x'], cwd=tmp, env=env0, timeout=900)
         res['tests'] = out.strip().splitlines()[-1] if out.strip() else ''
+        # the checks run from a private copy of /verif: `prepare` rewrites lean/OnlVerif/Generated/*.lean from the (changed)
+        # source and rebuilds the driver, which must not disturb /verif or a seed checked at the same time
+        vcopy = tmp + '/.verif'
+        subprocess.run(['rsync', '-a', '--exclude', '.git', '--exclude', 'replays', '--exclude', 'seeded', '/verif/', vcopy + '/'], check=True)
         for p in props:
-            rc, out = sh(['/verif/check', p], cwd='/verif', env={'ONL_REPO': tmp, 'VERIF_EVIDENCE_DIR': tmp + '/.evidence', 'VERIF_REPLAY_DIR': 'replays/mutants'}, timeout=3000)
+            rc, out = sh([vcopy + '/check', p], cwd=vcopy, env={'ONL_REPO': tmp, 'VERIF_EVIDENCE_DIR': tmp + '/.evidence', 'VERIF_REPLAY_DIR': 'replays/mutants'}, timeout=3000)
             lines = [l for l in out.splitlines() if l.startswith(('VIOLATION', 'OK ', 'KNOWN'))]
             res[f'check_{p}'] = {'exit': rc, 'lines': lines[:3]}
     finally:
